@@ -6,6 +6,7 @@ mod b64;
 mod cases;
 mod domains;
 mod explore;
+mod models;
 mod props;
 mod report;
 mod rfc3339;
@@ -49,6 +50,9 @@ fn dispatch_run(prop: &'static str, tier: &str) -> i32 {
         "C09" => props::nopanic::run(tier),
         "C10" => props::nonce::run(tier),
         "C18" => props::claimkeys::run(tier),
+        "C15" | "C16" => props::parser_props::run(prop, tier),
+        "C14" => props::gbuilder_props::run(tier),
+        "C13" | "C17" => props::pbuilder_props::run(prop, tier),
         "C11" | "C12" => props::timeclaims::run(prop, tier),
         "C04" => props::binding::run_c04(tier),
         "C05" => props::binding::run_c05(tier),
@@ -66,6 +70,9 @@ fn dispatch_replay(prop: &'static str, case: &serde_json::Value) -> i32 {
         "C09" => props::nopanic::replay(case),
         "C10" => props::nonce::replay(case),
         "C18" => props::claimkeys::replay(case),
+        "C15" | "C16" => props::parser_props::replay(prop, case),
+        "C14" => props::gbuilder_props::replay(case),
+        "C13" | "C17" => props::pbuilder_props::replay(prop, case),
         "C11" | "C12" => props::timeclaims::replay(prop, case),
         "C04" | "C05" | "C06" | "C07" => props::binding::replay(prop, case),
         _ => report::machinery_error("unknown property"),
